@@ -1782,7 +1782,17 @@ fn c18_server_part(rt: &FfiRuntime, thorough: bool) -> Stats {
     for (res, set) in results {
         // C ABI server
         let ws = Arc::new(Mutex::new(WriteState { results: [res; 4], apply: false, ..Default::default() }));
-        let (server, addr, _l) = match ffi_server(rt, Variant::Tcp, &FilterSpec::Any, "127.0.0.1", ten_registers(), ws.clone(), [set; 4]) {
+        // the database already holds exactly the values the four requests write: whether a write
+        // changes anything is the application's business, the callback decides every time
+        let mut points = ten_registers();
+        points.push(DbOp::Add(0, 258, 1));
+        points.push(DbOp::Add(2, 65534, 43981));
+        for (i, v) in [(9u16, 1u16), (10, 0), (11, 0), (12, 1), (13, 0), (14, 0), (15, 1), (16, 0), (17, 0), (18, 1)] {
+            points.push(DbOp::Add(0, i, v));
+        }
+        points.push(DbOp::Add(2, 4096, 8704));
+        points.push(DbOp::Add(2, 4097, 8705));
+        let (server, addr, _l) = match ffi_server(rt, Variant::Tcp, &FilterSpec::Any, "127.0.0.1", points, ws.clone(), [set; 4]) {
             Ok(x) => x,
             Err(e) => {
                 st.violation(Violation { signature: "MACHINERY:c-abi-server".into(), summary: e, replay: json!({}) });
